@@ -192,11 +192,13 @@ def iflr(frame_name, frame_number, data, o=1):
 
 
 def origin_full(file_id=b'VERIF', well=b'WELL-1', field=b'FIELD', company=b'COMPANY', producer=b'PRODUCER',
-                ctime=(2015, 0, 8, 16, 4, 57, 12, 0), omit=()):
-    """an ORIGIN with the attributes RP66V1/ToLAS.py reads (omit: labels to leave out of the template)"""
+                ctime=(2015, 0, 8, 16, 4, 57, 12, 0), omit=(), absent=()):
+    """an ORIGIN with the attributes RP66V1/ToLAS.py reads (omit: labels to leave out of the template; absent: labels whose
+    cell in the object is an Absent Attribute component)"""
     t = [(b'FILE-ID', 20, None, None), (b'FILE-SET-NAME', 19, None, None), (b'FILE-SET-NUMBER', 18, None, None),
          (b'FILE-NUMBER', 18, None, None), (b'CREATION-TIME', 21, None, None), (b'WELL-NAME', 20, None, None),
          (b'FIELD-NAME', 20, None, None), (b'PRODUCER-NAME', 20, None, None), (b'COMPANY', 20, None, None)]
     v = [[file_id], [b'SETNAME'], [41], [170], [ctime], [well], [field], [producer], [company]]
+    v = [None if t[i][0] in absent else x for i, x in enumerate(v)]
     keep = [i for i, x in enumerate(t) if x[0] not in omit]
     return simple_eflr(b'ORIGIN', [t[i] for i in keep], [((0, 0, b'DEFINING-ORIGIN'), [v[i] for i in keep])])
